@@ -191,12 +191,13 @@ struct Inner {
     log: Mutex<Vec<ReadLog>>,
     arena: Mutex<Vec<Box<[u8]>>>,
     keep_log: bool,
+    configure_calls: Mutex<u64>,
 }
 #[derive(Clone)]
 pub struct SimSource(Arc<Inner>);
 impl SimSource {
     pub fn new(tree: Tree, mode: HotMode, variant: u8) -> SimSource {
-        SimSource(Arc::new(Inner { tree: Mutex::new(tree), sender: Mutex::new(None), mode, variant, reads: Mutex::new(0), plan: Mutex::new(BTreeMap::new()), log: Mutex::new(vec![]), arena: Mutex::new(vec![]), keep_log: true }))
+        SimSource(Arc::new(Inner { tree: Mutex::new(tree), sender: Mutex::new(None), mode, variant, reads: Mutex::new(0), plan: Mutex::new(BTreeMap::new()), log: Mutex::new(vec![]), arena: Mutex::new(vec![]), keep_log: true, configure_calls: Mutex::new(0) }))
     }
     pub fn tree<R>(&self, f: impl FnOnce(&mut Tree) -> R) -> R {
         f(&mut self.0.tree.lock().unwrap())
@@ -212,6 +213,10 @@ impl SimSource {
     }
     pub fn set_plan(&self, plan: BTreeMap<u64, IoKind>) {
         *self.0.plan.lock().unwrap() = plan;
+    }
+    /// how many times the library asked this source to start its watcher
+    pub fn configure_calls(&self) -> u64 {
+        *self.0.configure_calls.lock().unwrap()
     }
     pub fn reads(&self) -> u64 {
         *self.0.reads.lock().unwrap()
@@ -346,6 +351,7 @@ impl Source for SimSource {
         }
     }
     fn configure_hot_reloading(&self, events: EventSender) -> Result<(), BoxedError> {
+        *self.0.configure_calls.lock().unwrap() += 1;
         // the sender is kept in every mode: a source whose set-up fails half-way may well go on sending
         *self.0.sender.lock().unwrap() = Some(events);
         match self.0.mode {
